@@ -250,4 +250,16 @@ theorem refund_exact (b : Bal) (l : List (Addr × Nat)) :
     total (refundMove b l) = total b + (l.map (·.2)).sum :=
   refundMove_total l b
 
+/-- End of block (`VMExecutor.after`): the sum of all balances increases by exactly the escrow entries due at this
+    height (scheduled block rewards and stake refunds), and balances + escrow increase by exactly what the block
+    added to the escrow. -/
+theorem after_exact (b : Bal) (e : Escrow) (h : Nat) (added : Escrow) :
+    total (afterBlock b e h added).1 = total b + ((dueAt (e ++ added) h).map (·.2)).sum ∧
+    total (afterBlock b e h added).1 + escrowTotal (afterBlock b e h added).2
+      = total b + escrowTotal e + escrowTotal added :=
+  afterBlock_exact b e h added
+
+example : afterBlock [(1, 5)] [(10, 1, 3), (20, 2, 4)] 10 [(10, 2, 6), (30, 1, 1)]
+    = ([(1, 8), (2, 6)], [(20, 2, 4), (30, 1, 1)]) := by decide
+
 end Rangers.Props.C06
